@@ -220,4 +220,424 @@ theorem go_conserve (p : Params) (l : List Item) (n : Nat) :
             rw [hgone, hstart', this, List.cons_append, List.take_append_drop]
             exact (list_split l start b it hsb hit).symm
 
+/-! ## shape of the lines -/
+
+def isDiscOpt : Option Item → Bool
+  | some (.disc _ _ _) => true
+  | _ => false
+
+def isDiscAt (l : List Item) (b : Nat) : Bool := isDiscOpt l[b]?
+
+theorem breakPart_isSome {o : Option Item} {brk : List Item} {pd : Option (List Elem)} {sk : Nat}
+    (h : breakPart o = .ok (brk, pd, sk)) : pd.isSome = isDiscOpt o := by
+  cases o with
+  | none =>
+    simp only [breakPart, Except.ok.injEq, Prod.mk.injEq] at h
+    obtain ⟨_, rfl, _⟩ := h; rfl
+  | some it =>
+    cases it <;> simp only [breakPart, Except.ok.injEq, Prod.mk.injEq, reduceCtorEq] at h <;>
+      first
+      | (obtain ⟨_, rfl, _⟩ := h; rfl)
+
+theorem go_length (p : Params) (l : List Item) (n : Nat) :
+    ∀ (bs : List Nat) (idx start : Nat) (pending : Option (List Elem)) (lines : List Line),
+      go p l n idx start pending bs = .ok lines → lines.length = bs.length := by
+  intro bs
+  induction bs with
+  | nil => intro idx start pending lines h; simp [go] at h; subst h; rfl
+  | cons b rest ih =>
+    intro idx start pending lines h
+    simp only [go] at h
+    split at h
+    · simp at h
+    · split at h
+      · simp at h
+      · rename_i ls hgo
+        simp only [Except.ok.injEq] at h
+        subst h
+        simp [ih _ _ _ _ hgo]
+
+/-- Everything `go` fixes about line `i` of its output except the list content. -/
+theorem go_shape (p : Params) (l : List Item) (n : Nat) :
+    ∀ (bs : List Nat) (idx start : Nat) (pending : Option (List Elem)) (lines : List Line),
+      go p l n idx start pending bs = .ok lines →
+      ∀ (i : Nat) (ln : Line) (b : Nat), lines[i]? = some ln → bs[i]? = some b →
+        ln.left = leftPart p ∧ ln.right = .glue 0 p.rightSkip ∧
+        lineWidth p.widths (idx + i) = .ok ln.width ∧ ln.indent = lineIndent p.indents (idx + i) ∧
+        linePenalty p n (idx + i) (isDiscAt l b) = .ok ln.pen ∧
+        ln.brk = (match l[b]? with | some it => visible it | none => []) := by
+  intro bs
+  induction bs with
+  | nil => intro idx start pending lines h i ln b hi hb; simp at hb
+  | cons b0 rest ih =>
+    intro idx start pending lines h i ln b hi hb
+    simp only [go] at h
+    split at h
+    · simp at h
+    · rename_i ln0 start' pend' hstep
+      split at h
+      · simp at h
+      · rename_i ls hgo
+        simp only [Except.ok.injEq] at h
+        subst h
+        cases i with
+        | zero =>
+          simp only [List.getElem?_cons_zero, Option.some.injEq] at hi hb
+          subst hi hb
+          obtain ⟨_, _, brk, skip, k, w, pen, hbrk, _, _, hw, hpen, hln, _⟩ := step_ok hstep
+          have hsome := breakPart_isSome hbrk
+          subst hln
+          refine ⟨rfl, rfl, by simpa using hw, rfl, ?_, ?_⟩
+          · simp only [Nat.add_zero, isDiscAt]; rw [← hsome]; exact hpen
+          · cases hit : l[b0]? with
+            | none =>
+              rw [hit] at hbrk
+              simp only [breakPart, Except.ok.injEq, Prod.mk.injEq] at hbrk
+              simp only []
+              exact hbrk.1.symm
+            | some it =>
+              rw [hit] at hbrk
+              simp only []
+              cases it <;> simp only [breakPart, Except.ok.injEq, Prod.mk.injEq, reduceCtorEq] at hbrk <;>
+                first
+                | exact hbrk.1.symm
+        | succ j =>
+          simp only [List.getElem?_cons_succ] at hi hb
+          have := ih (idx + 1) start' pend' ls hgo j ln b hi hb
+          have e : idx + 1 + j = idx + (j + 1) := by omega
+          rw [e] at this
+          exact this
+
+theorem addI32_ok {a b c : Int} (h : addI32 a b = .ok c) : c = a + b := by
+  unfold addI32 at h; split at h <;> simp_all
+
+theorem condAdd_ok {cond : Prop} [Decidable cond] {a b c : Int}
+    (h : (if cond then addI32 a b else .ok a) = .ok c) : c = a + (if cond then b else 0) := by
+  by_cases hc : cond
+  · simp only [hc, if_true] at h ⊢; exact addI32_ok h
+  · simp only [hc, if_false] at h ⊢; simp at h; omega
+
+theorem linePenalty_spec {p : Params} {n idx : Nat} {d : Bool} {r : Option Int}
+    (h : linePenalty p n idx d = .ok r) :
+    r = if idx + 1 = n then none
+        else if penaltySpec p n idx d = 0 then none else some (penaltySpec p n idx d) := by
+  unfold linePenalty at h
+  unfold penaltySpec
+  by_cases h1 : idx + 1 = n
+  · simp only [h1, if_true] at h ⊢; simp at h; exact h.symm
+  · simp only [h1, if_false] at h ⊢
+    split at h
+    · simp at h
+    · rename_i p1 e1
+      split at h
+      · simp at h
+      · rename_i p2 e2
+        split at h
+        · simp at h
+        · rename_i p3 e3
+          have a1 := condAdd_ok e1
+          have a2 := condAdd_ok e2
+          have a3 := condAdd_ok e3
+          simp only [Except.ok.injEq] at h
+          subst h
+          have : p3 = p.interLine + (if idx = 0 then p.club else 0) + (if idx + 2 = n then p.widow else 0) +
+              (if d = true then p.broken else 0) := by rw [a3, a2, a1]
+          rw [← this]
+          by_cases hz : p3 = 0 <;> simp [hz]
+
+/-! ## no line starts with discardable material -/
+
+theorem pruneCount_stop : ∀ (xs : List Item) (n k : Nat), pruneCount xs n = .ok k →
+    k = n ∨ ∃ it, xs[k]? = some it ∧ it.nonDiscardable = true
+  | _, 0, k, h => by simp [pruneCount] at h; exact Or.inl h.symm
+  | [], n + 1, k, h => by simp [pruneCount] at h
+  | it :: t, n + 1, k, h => by
+    simp only [pruneCount] at h
+    by_cases hd : it.nonDiscardable = true
+    · simp [hd] at h; subst h
+      exact Or.inr ⟨it, by simp, hd⟩
+    · simp [hd] at h
+      cases hr : pruneCount t n with
+      | error e => simp [hr] at h
+      | ok k' =>
+        simp [hr] at h; subst h
+        rcases pruneCount_stop t n k' hr with h1 | ⟨it', h1, h2⟩
+        · exact Or.inl (by omega)
+        · exact Or.inr ⟨it', by simpa using h1, h2⟩
+
+theorem step_clean {p : Params} {l : List Item} {n idx start : Nat} {pending : Option (List Elem)}
+    {bp nb : Nat} {rest' : List Nat} {ln : Line} {start' : Nat} {pend' : Option (List Elem)}
+    (h : step p l n idx start pending bp (nb :: rest') = .ok (ln, start', pend')) :
+    startsClean (pendingItems pend') ((l.drop start').take (nb - start')) = true := by
+  obtain ⟨_, _, brk, skip, k, w, pen, _, hprune, hstart', _⟩ := step_ok h
+  unfold pruneAfter at hprune
+  by_cases hp : shouldPrune pend' = true
+  · simp only [hp, if_true] at hprune
+    rcases pruneCount_stop _ _ _ hprune with hk | ⟨it, hit, hnd⟩
+    · have : nb - start' = 0 := by omega
+      simp [this, startsClean]
+    · cases hm : nb - start' with
+      | zero => simp [startsClean]
+      | succ m =>
+        have hdrop : l.drop start' = it :: l.drop (start' + 1) := by
+          have h1 : l[start']? = some it := by
+            rw [List.getElem?_drop] at hit
+            rw [hstart']; exact hit
+          have hlt : start' < l.length := by
+            rcases Nat.lt_or_ge start' l.length with h | h
+            · exact h
+            · rw [List.getElem?_eq_none h] at h1; cases h1
+          rw [List.drop_eq_getElem_cons hlt]
+          have h2 := List.getElem?_eq_getElem hlt
+          rw [h2] at h1
+          rw [Option.some.inj h1]
+        rw [hdrop]
+        simp [startsClean, hnd]
+  · cases pend' with
+    | none => simp [shouldPrune] at hp
+    | some es =>
+      simp only [shouldPrune] at hp
+      cases es with
+      | nil => simp at hp
+      | cons e es => simp [startsClean, pendingItems]
+
+theorem go_clean (p : Params) (l : List Item) (n : Nat) :
+    ∀ (bs : List Nat) (idx start : Nat) (pending : Option (List Elem)) (lines : List Line),
+      go p l n idx start pending bs = .ok lines →
+      (∀ b, bs.head? = some b →
+        startsClean (pendingItems pending) ((l.drop start).take (b - start)) = true) →
+      ∀ ln ∈ lines, startsClean ln.post ln.body = true := by
+  intro bs
+  induction bs with
+  | nil => intro idx start pending lines h _ ln hln; simp [go] at h; subst h; simp at hln
+  | cons b rest ih =>
+    intro idx start pending lines h hpre ln hmem
+    simp only [go] at h
+    split at h
+    · simp at h
+    · rename_i ln0 start' pend' hstep
+      split at h
+      · simp at h
+      · rename_i ls hgo
+        simp only [Except.ok.injEq] at h
+        subst h
+        rcases List.mem_cons.mp hmem with rfl | hmem
+        · obtain ⟨_, _, brk, skip, k, w, pen, _, _, _, _, _, hln, _⟩ := step_ok hstep
+          rw [hln]
+          exact hpre b rfl
+        · refine ih (idx + 1) start' pend' ls hgo ?_ ln hmem
+          intro nb hnb
+          cases rest with
+          | nil => simp at hnb
+          | cons nb' rest' =>
+            simp only [List.head?_cons, Option.some.injEq] at hnb
+            subst hnb
+            exact step_clean hstep
+
+/-! ## no panic inside the domain -/
+
+/-- The sum of the four inter-line penalties cannot leave `i32`. -/
+def penFits (p : Params) : Prop :=
+  p.interLine.natAbs + p.club.natAbs + p.widow.natAbs + p.broken.natAbs ≤ 2147483647
+
+theorem addI32_total {a b : Int} (h : -2147483648 ≤ a + b ∧ a + b ≤ 2147483647) :
+    addI32 a b = .ok (a + b) := by
+  unfold addI32 inI32; simp [h]
+
+theorem linePenalty_total {p : Params} (hf : penFits p) (n idx : Nat) (d : Bool) :
+    ∃ r, linePenalty p n idx d = .ok r := by
+  unfold penFits at hf
+  unfold linePenalty
+  by_cases h1 : idx + 1 = n
+  · simp [h1]
+  · simp only [h1, if_false]
+    have e1 : (if idx = 0 then addI32 p.interLine p.club else .ok p.interLine) =
+        .ok (p.interLine + (if idx = 0 then p.club else 0)) := by
+      by_cases h0 : idx = 0
+      · simp only [h0, if_true]; exact addI32_total (by omega)
+      · simp [h0]
+    rw [e1]
+    simp only
+    have e2 : (if idx + 2 = n then addI32 (p.interLine + (if idx = 0 then p.club else 0)) p.widow
+          else .ok (p.interLine + (if idx = 0 then p.club else 0))) =
+        .ok (p.interLine + (if idx = 0 then p.club else 0) + (if idx + 2 = n then p.widow else 0)) := by
+      by_cases h2 : idx + 2 = n
+      · simp only [h2, if_true]; exact addI32_total (by split <;> omega)
+      · simp [h2]
+    rw [e2]
+    simp only
+    have e3 : (if d = true then addI32 (p.interLine + (if idx = 0 then p.club else 0) +
+            (if idx + 2 = n then p.widow else 0)) p.broken
+          else .ok (p.interLine + (if idx = 0 then p.club else 0) + (if idx + 2 = n then p.widow else 0))) =
+        .ok (p.interLine + (if idx = 0 then p.club else 0) + (if idx + 2 = n then p.widow else 0) +
+          (if d = true then p.broken else 0)) := by
+      by_cases h3 : d = true
+      · simp only [h3, if_true]; exact addI32_total (by split <;> split <;> omega)
+      · simp [h3]
+    rw [e3]
+    exact ⟨_, rfl⟩
+
+theorem lineWidth_total {ws : List Int} (hw : ws ≠ []) (i : Nat) : ∃ w, lineWidth ws i = .ok w := by
+  unfold lineWidth
+  cases h : ws[i]? with
+  | some w => exact ⟨w, rfl⟩
+  | none =>
+    cases h2 : ws.getLast? with
+    | some w => exact ⟨w, rfl⟩
+    | none => exact absurd (List.getLast?_eq_none_iff.mp h2) hw
+
+theorem pruneCount_total : ∀ (xs : List Item) (n : Nat), n ≤ xs.length → ∃ k, pruneCount xs n = .ok k
+  | _, 0, _ => ⟨0, by simp [pruneCount]⟩
+  | [], n + 1, h => by simp at h
+  | it :: t, n + 1, h => by
+    simp only [pruneCount]
+    by_cases hd : it.nonDiscardable = true
+    · exact ⟨0, by simp [hd]⟩
+    · obtain ⟨k, hk⟩ := pruneCount_total t n (by simpa using h)
+      exact ⟨k + 1, by simp [hd, hk]⟩
+
+theorem toItem_packTodo (e : Elem) : e.toItem.packTodo = false := by cases e <;> rfl
+
+theorem visible_packTodo (it : Item) (h : it.packTodo = false) : ∀ x ∈ visible it, x.packTodo = false := by
+  cases it with
+  | disc pre post r =>
+    intro x hx
+    simp only [visible, List.mem_cons, List.mem_map] at hx
+    rcases hx with rfl | ⟨e, _, rfl⟩
+    · rfl
+    · exact toItem_packTodo e
+  | math a => simp [Item.packTodo] at h
+  | box id => simp [visible]
+  | inert id => simp [visible]
+  | glue k g => simp [visible]
+  | kern k w => simp [visible, Item.packTodo]
+  | penalty q => simp [visible, Item.packTodo]
+
+/-- The head of a valid break sequence is at most the length of the list. -/
+theorem validFrom_head_le {l : List Item} {lo b : Nat} {rest : List Nat}
+    (h : validFrom l lo (b :: rest) = true) : lo ≤ b ∧ b ≤ l.length := by
+  cases rest with
+  | nil => simp [validFrom] at h; omega
+  | cons nb r => simp [validFrom] at h; omega
+
+theorem go_total (p : Params) (l : List Item) (n : Nat) (hw : p.widths ≠ []) (hf : penFits p)
+    (hl : ∀ it ∈ l, it.packTodo = false) :
+    ∀ (bs : List Nat) (idx start : Nat) (pending : Option (List Elem)) (lo : Nat),
+      validFrom l lo bs = true → (∀ b, bs.head? = some b → start ≤ b) →
+      ∃ lines, go p l n idx start pending bs = .ok lines := by
+  intro bs
+  induction bs with
+  | nil => intro idx start pending lo hv; simp [validFrom] at hv
+  | cons b rest ih =>
+    intro idx start pending lo hv hstart
+    have hsb : start ≤ b := hstart b rfl
+    have hbl : b ≤ l.length := (validFrom_head_le hv).2
+    -- the break item
+    have hbreak : ∃ brk pd sk, breakPart l[b]? = .ok (brk, pd, sk) ∧
+        (∀ x ∈ brk, x.packTodo = false) ∧
+        validFrom l (b + 1 + sk) rest = true ∨ (rest = [] ∧ breakPart l[b]? = .ok (brk, pd, sk) ∧ brk = []) := by
+      cases rest with
+      | nil =>
+        simp only [validFrom, Bool.and_eq_true, decide_eq_true_eq] at hv
+        have : l[b]? = none := by rw [hv.2]; simp
+        exact ⟨[], none, 0, Or.inr ⟨rfl, by rw [this]; rfl, rfl⟩⟩
+      | cons nb r =>
+        simp only [validFrom, Bool.and_eq_true, decide_eq_true_eq] at hv
+        obtain ⟨⟨_, hlt⟩, hv2⟩ := hv
+        cases hit : l[b]? with
+        | none => rw [hit] at hv2; simp at hv2
+        | some it =>
+          rw [hit] at hv2
+          simp only [Bool.and_eq_true] at hv2
+          have hmem : it ∈ l := List.mem_of_getElem? hit
+          exact ⟨visible it, pendOf it, it.replace,
+            Or.inl ⟨breakPart_some it hv2.1, visible_packTodo it (hl it hmem), hv2.2⟩⟩
+    obtain ⟨brk, pd, sk, hb⟩ := hbreak
+    have hbp : breakPart l[b]? = .ok (brk, pd, sk) := by
+      rcases hb with h | h
+      · exact h.1
+      · exact h.2.1
+    have hbrkTodo : ∀ x ∈ brk, x.packTodo = false := by
+      rcases hb with h | h
+      · exact h.2.1
+      · rw [h.2.2]; simp
+    -- pruning
+    have hprune : ∃ k, pruneAfter l pd (b + 1 + sk) rest = .ok k ∧
+        (∀ nb, rest.head? = some nb → b + 1 + sk + k ≤ nb) := by
+      unfold pruneAfter
+      by_cases hp : shouldPrune pd = true
+      · simp only [hp, if_true]
+        cases rest with
+        | nil => exact ⟨0, rfl, by simp⟩
+        | cons nb r =>
+          rcases hb with h | h
+          · have hh := validFrom_head_le h.2.2
+            obtain ⟨k, hk⟩ := pruneCount_total (l.drop (b + 1 + sk)) (nb - (b + 1 + sk))
+              (by simp; omega)
+            refine ⟨k, hk, ?_⟩
+            intro nb' hnb'
+            simp only [List.head?_cons, Option.some.injEq] at hnb'
+            subst hnb'
+            have := (pruneCount_spec _ _ _ hk).1
+            omega
+          · cases h.1
+      · simp only [hp]
+        refine ⟨0, rfl, ?_⟩
+        intro nb hnb
+        rcases hb with h | h
+        · cases rest with
+          | nil => simp at hnb
+          | cons nb' r =>
+            simp only [List.head?_cons, Option.some.injEq] at hnb
+            subst hnb
+            have := (validFrom_head_le h.2.2).1
+            omega
+        · rw [h.1] at hnb; simp at hnb
+    obtain ⟨k, hk, hknext⟩ := hprune
+    obtain ⟨w, hwid⟩ := lineWidth_total hw idx
+    obtain ⟨pen, hpen⟩ := linePenalty_total hf n idx pd.isSome
+    -- the step
+    have hstep : step p l n idx start pending b rest =
+        .ok ({ left := leftPart p, post := pendingItems pending,
+               body := (l.drop start).take (b - start), brk := brk,
+               right := .glue 0 p.rightSkip, width := w,
+               indent := lineIndent p.indents idx, pen := pen }, b + 1 + sk + k, pd) := by
+      unfold step
+      have hcond : ¬¬(start ≤ b ∧ b ≤ l.length) := by simp; omega
+      simp only [hcond, if_false, hbp, hk, hwid, hpen]
+      have hall : (({ left := leftPart p, post := pendingItems pending,
+               body := (l.drop start).take (b - start), brk := brk,
+               right := .glue 0 p.rightSkip, width := w,
+               indent := lineIndent p.indents idx, pen := none } : Line).flat).any Item.packTodo = false := by
+        rw [List.any_eq_false]
+        intro x hx
+        simp only [Line.flat, List.mem_append, List.mem_singleton] at hx
+        rcases hx with hx | hx | hx | hx | hx
+        · unfold leftPart at hx
+          split at hx
+          · simp at hx
+          · simp at hx; subst hx; simp [Item.packTodo]
+        · cases pending with
+          | none => simp [pendingItems] at hx
+          | some es =>
+            simp only [pendingItems, List.mem_map] at hx
+            obtain ⟨e, _, rfl⟩ := hx
+            simp [toItem_packTodo]
+        · have := hl x (List.mem_of_mem_drop (List.mem_of_mem_take hx))
+          simp [this]
+        · simp [hbrkTodo x hx]
+        · subst hx; simp [Item.packTodo]
+      simp only [hall]
+      simp
+    -- the rest
+    cases rest with
+    | nil =>
+      exact ⟨[_], by simp only [go, hstep]⟩
+    | cons nb r =>
+      rcases hb with h | h
+      · obtain ⟨ls, hls⟩ := ih (idx + 1) (b + 1 + sk + k) pd (b + 1 + sk) h.2.2
+          (by intro b' hb'; exact hknext b' hb')
+        exact ⟨_ :: ls, by simp only [go, hstep, hls]⟩
+      · cases h.1
+
 end C12
